@@ -952,3 +952,29 @@ def anyUriCtor (urlparseFails : Bool) (path : Str) (s : Str) : Option Str :=
   else some v
 
 end EPV.Lex
+
+/-! ## xs:QName from a string: the namespace of the value (qname.py `AbstractQName.make`, `__init__`) -/
+namespace EPV.Lex
+
+inductive QErr | value | nokey
+deriving DecidableEq, Repr
+
+/-- `namespaces.get(p)` on the parser's prefix map (the key `''` holds the `default_namespace`) -/
+def lookupNs (ns : List (Str × Str)) (p : Str) : Option Str := (ns.find? (·.1 == p)).map (·.2)
+
+/-- `AbstractQName.make(value, parser=…)` on a `str` (after fix-c10-6: the argument is stripped first), then
+`AbstractQName.__init__(uri, qname)`: an unprefixed name gets `namespaces.get('')`, a prefixed one `namespaces[prefix]`
+(`KeyError` → FONS0004); the pattern (`lexOk`, = `matchQName` on the generated tables) and "a prefix needs a non-empty
+namespace" are `ValueError`s.  Result: (namespace URI or `''`, prefix or `''`, local name). -/
+def qnameMake (lexOk : Str → Bool) (ns : List (Str × Str)) (s : Str) : Except QErr (Str × Str × Str) :=
+  let v := pyStrip s
+  let hasColon := v.contains ':'
+  let pre := if hasColon then v.takeWhile (· != ':') else []
+  match (if hasColon then lookupNs ns pre else some ((lookupNs ns []).getD [])) with
+  | none => .error .nokey
+  | some uri =>
+    if !lexOk v then .error .value
+    else if uri.isEmpty && hasColon then .error .value
+    else .ok (uri, pre, if hasColon then (v.dropWhile (· != ':')).drop 1 else v)
+
+end EPV.Lex
